@@ -145,7 +145,7 @@ def words(ctx, values):
     recs, crashes = h.run_impl_robust(["Q - " + zwcorr.hx(p) for p in progs])
     bad = 0
     for p, w, r in zip(progs, want, recs):
-        if r.err == "crash":
+        if r.err in ("crash", "skipped"):
             ctx.violation("the library crashed on %r" % p, {"stream": "int-words", "input": p})
             bad += 1
         elif isinstance(w, bool):
